@@ -57,7 +57,8 @@ def check_split(case, ctx):
     pdim = len(d["degree"])
     k = case["dir"]
     kvs, szs = build.kvs_of(obj), build.sizes_of(obj)
-    u, kind = build.resolve_param(d["degree"][k], kvs[k], szs[k], case["where"])
+    u, kind = build.resolve_param(d["degree"][k], kvs[k], szs[k], case["where"], others=[o for j, o in enumerate(kvs) if j != k])
+    ctx.label("param-is-knot-of-other-direction", case["where"][0] == "other" and pdim > 1)
     if case["read"]:
         obj.delta = 0.25
         _ = obj.evalpts
